@@ -275,13 +275,52 @@ def run_l3_limit(ctx):
                             else:
                                 ctx.count("outcome", f"over-limit:{r['data'][:2].decode('latin-1')}")
                             ctx.case(("L3-limit", backend, limit, delta, via, r["data"][:2]), True, sample={"level": "L3", **case, "status": r["data"][:2]})
-        # ---- the documented default limit (100 MiB) on the configuration-file path: a file well above
-        # 10 MiB must be served when the TOML file sets no max_file_size
+        # ---- per-location limits from a configuration file: a static location's own max_file_size (larger
+        # or smaller than the server-wide one) decides for the files under it, the server-wide one elsewhere
         import tomli_w
         from pathlib import Path
 
         from nauyaca.server.config import ServerConfig
 
+        for glob_limit, loc_limit in ((4096, 70_000), (70_000, 4096)) if ctx.quick() else ((4096, 70_000), (70_000, 4096), (65536, 1 << 20), (4096, None)):
+            root = os.path.join(base, f"root-loc-{glob_limit}-{loc_limit}")
+            os.makedirs(os.path.join(root, "files"))
+            os.makedirs(os.path.join(root, "other"))
+            eff = {"files": loc_limit or glob_limit, "other": glob_limit}
+            contents = {}
+            for d, lim in eff.items():
+                for delta in (-1, 0, 1):
+                    n = lim + delta
+                    data = (b"0123456789abcdef" * (n // 16 + 1))[:n]
+                    with open(os.path.join(root, d, f"f{delta}.txt"), "wb") as f:
+                        f.write(data)
+                    contents[(d, delta)] = data
+            loc_files = {"prefix": "/files/", "handler": "static", "document_root": root}  # (static locations do not strip their prefix)
+            if loc_limit is not None:
+                loc_files["max_file_size"] = loc_limit
+            toml = os.path.join(base, f"loc-{glob_limit}-{loc_limit}.toml")
+            with open(toml, "wb") as f:
+                tomli_w.dump({"server": {"host": "127.0.0.1", "port": 1965, "document_root": root, "max_file_size": glob_limit}, "rate_limit": {"enabled": False},
+                              "locations": [loc_files, {"prefix": "/", "handler": "static", "document_root": root}]}, f)
+            for backend in ("stdlib", "pyopenssl") if not ctx.quick() else ("stdlib",):
+                sc = ServerConfig.from_toml(Path(toml))
+                if backend == "pyopenssl":
+                    sc.require_client_cert = True
+                with live.LiveServer(root, backend=backend, config=sc, start_kwargs={}) as srv:
+                    for d, lim in eff.items():
+                        for delta in (-1, 0, 1):
+                            r = live.fetch_raw(srv.port, f"gemini://localhost/{d}/f{delta}.txt\r\n".encode(), timeout=60)
+                            case = {"backend": backend, "len": lim + delta, "btype": "str", "reader": "fast", "relative_to_limit": delta,
+                                    "source": f"static:location-limit:{'own' if d == 'files' and loc_limit else 'inherited'}:{'larger' if lim > glob_limit else 'smaller' if lim < glob_limit else 'same'}-than-server-wide"}
+                            if delta <= 0:
+                                compare(ctx, case, b"20 text/plain\r\n" + contents[(d, delta)], r["data"], r["eof"], "L3")
+                                ctx.count("monitor", "at_limit_streams")
+                                ctx.count("monitor", "location_limit_streams")
+                            else:
+                                ctx.count("outcome", f"over-location-limit:{r['data'][:2].decode('latin-1')}")
+                            ctx.case(("L3-location-limit", backend, glob_limit, loc_limit, d, delta, r["data"][:2]), True, sample={"level": "L3", **case, "status": r["data"][:2]})
+        # ---- the documented default limit (100 MiB) on the configuration-file path: a file well above
+        # 10 MiB must be served when the TOML file sets no max_file_size
         root = os.path.join(base, "root-default")
         os.makedirs(root)
         n = 11 * (1 << 20) + 7
